@@ -64,11 +64,7 @@ def make(targets, timeout=1500):
     """(Re)build the given .vo targets. Returns (ok, output)."""
     lk = _lock()
     try:
-        if not os.path.exists(os.path.join(COQ, "Makefile")) or (
-            os.path.getmtime(os.path.join(COQ, "Makefile")) < os.path.getmtime(os.path.join(COQ, "_CoqProject"))
-        ):
-            subprocess.run(["coq_makefile", "-f", "_CoqProject", "-o", "Makefile"], cwd=COQ, check=True,
-                           stdout=subprocess.DEVNULL)
+        subprocess.run([os.path.join(COQ, "mkproject.sh")], check=True)
         try:
             p = subprocess.run(["timeout", str(timeout), "make", "-j8"] + list(targets), cwd=COQ,
                                stdout=subprocess.PIPE, stderr=subprocess.STDOUT, text=True)
